@@ -427,21 +427,29 @@ Definition readback_ok (f : fspec) (v : value) : bool :=
   | Ok s => line_ok s && rvalue_eqb (default_rf (ft f) s) (expected f v)
   | Raise _ => false
   end.
-Fixpoint fields_ok (specs : list fspec) (vals : list value) : bool :=
-  match specs, vals with
-  | [], [] => true
-  | f :: fs, v :: vs => readback_ok f v && fields_ok fs vs
-  | _, _ => false
-  end.
-(** a record line: every field reads back and the line does not look blank *)
-Definition rec_ok (r : string) (vals : list value) : bool :=
-  match specs_of r with
-  | Ok specs => fields_ok specs vals &&
-                match write_values specs vals with Ok l => negb (is_blank l) | Raise _ => false end
-  | Raise _ => false
-  end.
-Definition rec_fields_ok (r : string) (vals : list value) : bool :=
-  match specs_of r with Ok specs => fields_ok specs vals | Raise _ => false end.
+(** the record-level conditions, for any per-field predicate [fpred] (the read-back check
+    above, or the arithmetic "fits" predicate of Fields.v which implies it) *)
+Section FieldPred.
+  Variable fpred : fspec -> value -> bool.
+  Fixpoint fields_ok_g (specs : list fspec) (vals : list value) : bool :=
+    match specs, vals with
+    | [], [] => true
+    | f :: fs, v :: vs => fpred f v && fields_ok_g fs vs
+    | _, _ => false
+    end.
+  (** a record line: every field is fine and the line does not look blank *)
+  Definition rec_ok_g (r : string) (vals : list value) : bool :=
+    match specs_of r with
+    | Ok specs => fields_ok_g specs vals &&
+                  match write_values specs vals with Ok l => negb (is_blank l) | Raise _ => false end
+    | Raise _ => false
+    end.
+  Definition rec_fields_ok_g (r : string) (vals : list value) : bool :=
+    match specs_of r with Ok specs => fields_ok_g specs vals | Raise _ => false end.
+End FieldPred.
+Notation fields_ok := (fields_ok_g readback_ok).
+Notation rec_ok := (rec_ok_g readback_ok).
+Notation rec_fields_ok := (rec_fields_ok_g readback_ok).
 
 (** ** canon: what [read (write g)] returns *)
 Definition dflt_spec : fspec := {| fw := 0; fp := None; ft := Tx |}.
@@ -523,44 +531,57 @@ Definition hdr_ok (h : header) : bool :=
   end.
 
 Section WF.
+  Variable fpred : fspec -> value -> bool.
   Variable L LL : nat.
   Variable scw scr : dy.
   (** the node list the reader holds after the VERTICES section *)
   Definition cnodes_of (g : geo) : list node := map (canon_node L scw scr) (g_nodes g).
   Definition cnames_of (g : geo) : list str := map (fun c => canon_name L (c_name c)) (g_cols g).
-  Definition wf_node (n : node) : bool := rec_ok "node" (node_vals scw n).
+  Definition wf_node_g (n : node) : bool := rec_ok_g fpred "node" (node_vals scw n).
   (** a column: the record and its node lines read back, the nodes exist, the re-read
       polygon is not clockwise (column.__init__ would reverse it) *)
-  Definition wf_colnode (nnames : list str) (nm : str) : bool :=
-    rec_fields_ok "column_node" (colnode_vals nm) && mem_str (canon_name L nm) nnames.
-  Definition wf_col (cnodes : list node) (c : column) : bool :=
-    rec_ok "column" (column_vals scw c) &&
-    forallb (wf_colnode (map n_name cnodes)) (c_nodes c) &&
+  Definition wf_colnode_g (nnames : list str) (nm : str) : bool :=
+    rec_fields_ok_g fpred "column_node" (colnode_vals nm) && mem_str (canon_name L nm) nnames.
+  Definition wf_col_g (cnodes : list node) (c : column) : bool :=
+    rec_ok_g fpred "column" (column_vals scw c) &&
+    forallb (wf_colnode_g (map n_name cnodes)) (c_nodes c) &&
     negb (area_neg (map (node_pos cnodes) (map (canon_name L) (c_nodes c)))).
-  Definition wf_con (cnames : list str) (c : str * str) : bool :=
-    rec_ok "connection" (con_vals c) && mem_str (canon_name L (fst c)) cnames && mem_str (canon_name L (snd c)) cnames.
-  Definition wf_lay (l : layer) : bool := rec_ok "layer" (layer_vals scw l).
-  Definition wf_surf (ns : str * dy) : bool := rec_ok "surface" (surf_vals scw (fst ns) (snd ns)).
-  Definition wf_wpt (np : str * pt3) : bool := rec_ok "well" (well_vals scw (fst np) (snd np)).
-  Definition wf_body (g : geo) : bool :=
+  Definition wf_con_g (cnames : list str) (c : str * str) : bool :=
+    rec_ok_g fpred "connection" (con_vals c) && mem_str (canon_name L (fst c)) cnames && mem_str (canon_name L (snd c)) cnames.
+  Definition wf_lay_g (l : layer) : bool := rec_ok_g fpred "layer" (layer_vals scw l).
+  Definition wf_surf_g (ns : str * dy) : bool := rec_ok_g fpred "surface" (surf_vals scw (fst ns) (snd ns)).
+  Definition wf_wpt_g (np : str * pt3) : bool := rec_ok_g fpred "well" (well_vals scw (fst np) (snd np)).
+  Definition wf_body_g (g : geo) : bool :=
     (* nodes *)
-    forallb wf_node (g_nodes g) && nodup_str (map n_name (cnodes_of g)) &&
+    forallb wf_node_g (g_nodes g) && nodup_str (map n_name (cnodes_of g)) &&
     (* columns *)
-    forallb (wf_col (cnodes_of g)) (g_cols g) && nodup_str (cnames_of g) &&
+    forallb (wf_col_g (cnodes_of g)) (g_cols g) && nodup_str (cnames_of g) &&
     (* connections *)
-    forallb (wf_con (cnames_of g)) (g_cons g) && nodup_pair (map (canon_con L) (g_cons g)) &&
+    forallb (wf_con_g (cnames_of g)) (g_cons g) && nodup_pair (map (canon_con L) (g_cons g)) &&
     (* layers: at least one (identify_layer_tops) *)
     negb (match g_lays g with [] => true | _ => false end) &&
-    forallb wf_lay (g_lays g) && nodup_str (map (fun l => canon_name LL (l_name l)) (g_lays g)) &&
+    forallb wf_lay_g (g_lays g) && nodup_str (map (fun l => canon_name LL (l_name l)) (g_lays g)) &&
     (* surface *)
-    forallb wf_surf (surf_cols (g_cols g)) &&
+    forallb wf_surf_g (surf_cols (g_cols g)) &&
     (* wells: every track point reads back, every well has a point, names distinct as written *)
-    forallb wf_wpt (well_points (g_wells g)) &&
+    forallb wf_wpt_g (well_points (g_wells g)) &&
     forallb (fun w => negb (match w_pos w with [] => true | _ => false end)) (g_wells g) &&
     nodup_str (map (fun w => canon_wname (w_name w)) (g_wells g)).
 End WF.
 
-Definition wf (g : geo) : bool :=
+Notation wf_node := (wf_node_g readback_ok).
+Notation wf_colnode := (wf_colnode_g readback_ok).
+Notation wf_col := (wf_col_g readback_ok).
+Notation wf_con := (wf_con_g readback_ok).
+Notation wf_lay := (wf_lay_g readback_ok).
+Notation wf_surf := (wf_surf_g readback_ok).
+Notation wf_wpt := (wf_wpt_g readback_ok).
+Notation wf_body := (wf_body_g readback_ok).
+
+(** [wf_g fpred]: the header line passes its read-back check; every record value satisfies
+    [fpred]; names are distinct after re-justification; referenced nodes/columns exist;
+    column polygons are not clockwise; at least one layer; every well has a point *)
+Definition wf_g (fpred : fspec -> value -> bool) (g : geo) : bool :=
   let h := g_hdr g in
   hdr_ok h &&
   match unit_scale_of (h_unit h) with
@@ -569,8 +590,9 @@ Definition wf (g : geo) : bool :=
     let h' := canon_header h in
     if str_eqb (h_type h') (s2l supported_type) then
       match conv_len colname_lengths (h_conv h'), conv_len layername_lengths (h_conv h'), unit_scale_of (h_unit h') with
-      | Ok L, Ok LL, Ok scr => wf_body L LL scw scr g
+      | Ok L, Ok LL, Ok scr => wf_body_g fpred L LL scw scr g
       | _, _, _ => false
       end
     else true
   end.
+Notation wf := (wf_g readback_ok).
